@@ -30,7 +30,7 @@ struct Ticker {
     fired: bool,
 }
 
-thread_local! {
+crate::tls! {
     static TICKER: Cell<Option<Ticker>> = const { Cell::new(None) };
 }
 
